@@ -71,6 +71,8 @@ const Scenario *find_scenario(const std::string &name);
 // phase marker used by scenarios for classification of runtime-detected failures
 void set_phase(const char *phase);
 const char *phase();
+// 0 = quick tier program sizes, 1 = thorough tier (some programs are larger: more threads, more operations)
+int scale();
 
 extern const Scenario kLocksScenario;
 extern const Scenario kIdmScenario;
